@@ -2395,6 +2395,11 @@ get_function_signature(CPPInstance *function,
     if (is_const_ref_to_anything(ptype)) {
       ptype = unwrap_const_reference(ptype);
     }
+    else if (ptype->as_const_type() != nullptr) {
+      // Top-level const of a parameter doesn't make a different function
+      // either: void f(int) and void f(const int) declare the same one.
+      ptype = ptype->as_const_type()->_wrapped_around;
+    }
 
     out << ptype->get_local_name(&parser);
 
